@@ -561,6 +561,30 @@ def arg_cases(rng):
     add("plain", "multi:params-two-bad", "invalid", up=[["tr_radius.eta2", enc(3.0)], ["general.safety_step_thresh", enc(-1.0)], ["slow.max_slow_iters", enc(2.5)]])
     add("plain", "multi:param-and-options", "invalid", up=[["tr_radius.eta2", enc(3.0)], ["growing.reset_rho", enc(True)]])
     add("reg", "multi:lh-and-rhoend", "invalid", lh=enc(-1.0), rhoend=enc(-1.0))
+    # adjacent checks failing together: the message must be that of the earlier one (order of the source)
+    add("reg", "multi:lh-and-npt", "invalid", lh=enc(0.0), npt=enc(1))
+    add("plain", "multi:npt-and-rhobeg", "invalid", npt=enc(1), rhobeg=enc(-1.0))
+    add("plain", "multi:rhobeg-and-rhoend", "invalid", rhobeg=enc(-1.0), rhoend=enc(-2.0))
+    add("plain", "multi:rhoend-and-order", "invalid", rhobeg=enc(0.5), rhoend=enc(0.0))
+    add("plain", "multi:order-and-maxfun", "invalid", rhobeg=enc(0.5), rhoend=enc(0.7), maxfun=enc(0))
+    add("plain", "multi:maxfun-and-x0", "invalid", maxfun=enc(-1), x0_2d="row")
+
+    def both_wrong(c):
+        narrow(c, 4.0)
+        c["xl"] = c["xl"] + [c["xl"][-1]]
+        c["xu"] = c["xu"] + [c["xu"][-1]] * 2
+        return False
+    add("plain", "multi:xl-and-xu-shape", "invalid", scaling=both_wrong)
+    add("plain", "multi:xu-shape-and-param", "invalid", scaling=lambda c: (narrow(c, 4.0), c.__setitem__("xu", c["xu"] + [1.0]))[0] and False,
+        up=[["tr_radius.eta1", enc(5.0)]])
+    add("plain", "multi:gap-and-param", "invalid", scaling=lambda c: narrow(c, 0.5), rhobeg=enc(0.5), up=[["tr_radius.eta1", enc(5.0)]])
+    add("plain", "multi:safety-and-growing", "invalid", up=[["growing.safety.full_geom_step", T], ["growing.safety.reduce_delta", T],
+                                                             ["growing.perturb_trust_region_step", T]])
+    add("plain", "multi:growing-and-noise", "invalid", up=[["growing.perturb_trust_region_step", T], ["noise.quit_on_noise_level", T],
+                                                            ["noise.multiplicative_noise_level", enc(0.1)], ["noise.additive_noise_level", enc(0.1)]])
+    add("noise", "multi:noise-and-parallel", "invalid", up=[["noise.multiplicative_noise_level", enc(0.1)], ["noise.additive_noise_level", enc(0.1)],
+                                                             ["init.run_in_parallel", T]])
+    add("plain", "multi:parallel-and-reset", "invalid", up=[["init.run_in_parallel", T], ["growing.reset_rho", T]])
     add("plain", "options:empty-dict", "valid", up=[])
     return out
 
@@ -900,9 +924,11 @@ def check_result(soln, real, case, counter, expect):
         return ("C07:invalid-accepted:" + tag, "invalid input (%s) was accepted: flag %d, %s" % (tag, soln.flag, soln.msg[:80]))
     if expect == "valid" and soln.flag == INPUT_ERROR:
         return ("C07:valid-rejected:" + tag, "documented input (%s) was rejected: %s" % (tag, soln.msg[:120]))
+    missing = [nm for nm in GUIDE_EXITS if not hasattr(soln, nm)]
+    if missing:
+        return ("C07:result-lacks-exit-constants:" + "+".join(missing),
+                "the result object has no attribute %s although the user guide names %s" % (", ".join(missing), ", ".join("soln." + nm for nm in missing)))
     for nm in GUIDE_EXITS:
-        if not hasattr(soln, nm):
-            return ("C07:result-lacks-exit-constant:" + nm, "the result object has no attribute %s although the user guide names soln.%s" % (nm, nm))
         if getattr(soln, nm) != SPEC_CONST.get(nm):
             return ("C07:exit-constant-value:" + nm, "soln.%s = %r but the documented value is %r" % (nm, getattr(soln, nm), SPEC_CONST.get(nm)))
     return None
